@@ -10,6 +10,7 @@ MSG_GAMES = ['th06', 'th07', 'th08', 'th09', 'th10', 'th11', 'th12', 'th128', 't
 END_GAMES = ['th10', 'th11', 'th12', 'th13', 'th14', 'th16', 'th17']
 MISSION_GAMES = ['th095', 'th125']
 ECL_GAMES = ['th06', 'th07', 'th08', 'th09', 'th095']
+ECL10_GAMES = ['th10', 'th11', 'th12', 'th125', 'th128', 'th13', 'th14', 'th143', 'th15', 'th16', 'th165', 'th17', 'th18']
 GAME_ORDER = ['th06', 'th07', 'th08', 'th09', 'th095', 'th10', 'alcostg', 'th11', 'th12', 'th125', 'th128', 'th13', 'th14', 'th143', 'th15', 'th16', 'th165', 'th17', 'th18', 'th185']
 
 def game_ge(a, b): return GAME_ORDER.index(a) >= GAME_ORDER.index(b)
@@ -367,16 +368,56 @@ def gen_ecl(rng, game, tables, **kw):
     return GenFile('ecl', game, text, used=used | {'timeline'}, shape=shape, truth={'subs': subs, 'timelines': ntl})
 
 
+def gen_ecl10(rng, game, tables, **kw):
+    """Modern (TH10+) ECL: include lists, named subs, raw instruction calls with literal arguments, time and difficulty labels.
+    (truth has no expression compiler for the stack-based ECL; sources are instruction listings.)"""
+    r = rng
+    t = tables.get(game, 'ecl')
+    _e, lit_calls = classify_calls(t)
+    lit_calls = [c for c in lit_calls if len(c[2]) <= 8]
+    anim = ['"%s"' % r.pick(['a.anm', 'enemy.anm', 'st01.anm', '敵.anm']) for _ in range(r.randint(0, 2))]
+    ecli = ['"%s"' % r.pick(['default.ecl', 'st01mbs.ecl', 'b.ecl']) for _ in range(r.randint(0, 2))]
+    text = 'meta { anim: [%s], ecli: [%s] }\n' % (', '.join(anim), ', '.join(ecli))
+    names = []
+    for i in range(r.randint(1, 4)):
+        names.append(r.pick(['main', 'Boss', 'sub', 'MainSub']) + str(i))
+    used = set()
+    for nm in names:
+        L = []
+        for _ in range(r.randint(0, 7)):
+            k = r.random()
+            if k < 0.15: L.append(r.pick(['+%d:' % r.randint(0, 60), '%d:' % r.randint(0, 300), '-%d:' % r.randint(1, 5)])); used.add('timelabels')
+            elif k < 0.25: L.append('{"%s"}:' % r.pick(['E', 'N', 'EN', 'HL', 'ENHL', 'L', 'NH'])); used.add('difflabels')
+            elif k < 0.35 or not lit_calls:
+                L.append('ins_%d(@mask=%d, @blob="%s");' % (r.randint(2000, 2010), r.pick([0, 1, 3]), ''.join('%02x' % r.getrandbits(8) for _ in range(4 * r.randint(0, 3))))); used.add('blob')
+            else:
+                name, op, params = r.pick(lit_calls)
+                L.append('%s(%s);' % (name, ', '.join(lit_arg(r, p2, {}) for p2 in params if not p2.is_padding))); used.add('calls')
+        text += 'void %s() {\n    %s\n}\n' % (nm, '\n    '.join(L))
+    return GenFile('ecl', game, text, used=used, shape=[], truth={'subs': names})
+
+
+def gen_anm_textured(rng, game, tables, **kw):
+    """An ANM file whose entries carry embedded textures (has_data: "dummy"): what `truanm extract` and image sources read."""
+    gf = gen_anm(rng, game, tables, **kw)
+    def repl(m):
+        w, h = rng.pick([(1, 1), (2, 3), (8, 8), (16, 4), (5, 7), (32, 32)])
+        return 'has_data: "dummy",\n    img_width: %d,\n    img_height: %d,' % (w, h)
+    import re
+    gf.text = re.sub(r'has_data: false,\n    img_width: \d+,\n    img_height: \d+,', repl, gf.text)
+    return gf
+
+
 # ------------------------------------------------------------------------------------------------------ dispatch
 
 KINDS = [('anm', ANM_GAMES, gen_anm), ('std', STD_GAMES, gen_std), ('msg', MSG_GAMES, gen_msg), ('end', END_GAMES, lambda r, g, t, **kw: gen_msg(r, g, t, ending=True, **kw)),
-         ('mission', MISSION_GAMES, gen_mission), ('ecl', ECL_GAMES, gen_ecl)]
+         ('mission', MISSION_GAMES, gen_mission), ('ecl', ECL_GAMES, gen_ecl), ('ecl10', ECL10_GAMES, gen_ecl10), ('anmtex', ANM_GAMES, gen_anm_textured)]
 
 
 def gen_any(rng, tables, kinds=None, weights=None, **kw):
     ks = [k for k in KINDS if kinds is None or k[0] in kinds]
-    w = weights or {'anm': 4, 'std': 2, 'msg': 2, 'end': 1, 'mission': 1, 'ecl': 4}
-    kind = rng.wpick([(k, w.get(k[0], 1)) for k in ks])
+    w = weights or {'anm': 4, 'std': 2, 'msg': 2, 'end': 1, 'mission': 1, 'ecl': 4, 'ecl10': 0, 'anmtex': 0}
+    kind = rng.wpick([(k, w.get(k[0], 0 if k[0] in ('ecl10', 'anmtex') else 1)) for k in ks])
     game = rng.pick(kind[1])
     gf = kind[2](rng, game, tables, **kw)
     gf.kind = kind[0]
